@@ -637,6 +637,34 @@ fn modified_solution_doubling() -> Option<String> {
     None
 }
 
+/// C13: duplicating the system into independent identical copies leaves the step sequence unchanged (the error norm is a root
+/// mean square over the components) up to rounding in the norm
+fn duplication_invariance() -> Option<String> {
+    struct Copies { k: usize }   // k copies of a linear 3x3 system with analytic Jacobian
+    impl IVP for Copies {
+        fn ode(&self, _t: f64, y: &[f64], d: &mut [f64]) {
+            for c in 0..self.k { let (a, b, e) = (y[3 * c], y[3 * c + 1], y[3 * c + 2]);
+                d[3 * c] = -0.5 * a + 2.0 * b; d[3 * c + 1] = -2.0 * a - 0.5 * b + 0.3 * e; d[3 * c + 2] = -3.0 * e + 0.1 * a; }
+        }
+        fn jac(&self, _t: f64, _y: &[f64], j: &mut ivp::matrix::Matrix) {
+            for c in 0..self.k { let o = 3 * c;
+                j[(o, o)] = -0.5; j[(o, o + 1)] = 2.0; j[(o + 1, o)] = -2.0; j[(o + 1, o + 1)] = -0.5; j[(o + 1, o + 2)] = 0.3; j[(o + 2, o + 2)] = -3.0; j[(o + 2, o)] = 0.1; }
+        }
+    }
+    for m in [Method::RK23, Method::DOPRI5, Method::DOP853, Method::RADAU, Method::BDF] {
+        let run = |k: usize| { let y0: Vec<f64> = (0..3 * k).map(|i| [1.0, 0.5, -0.25][i % 3]).collect();
+            solve_ivp(&Copies { k }, 0.0, 6.0, &y0, Options::builder().method(m.clone()).rtol(1e-6).atol(1e-9).first_step(1e-3).build()).unwrap() };
+        let base = run(1);
+        for k in [2usize, 5] {
+            let s = run(k);
+            if (s.nstep, s.naccpt, s.nrejct) != (base.nstep, base.naccpt, base.nrejct) {
+                return Some(format!("{:?}: {} identical copies of a 3x3 linear system: (nstep, naccpt, nrejct) = {:?}, one copy gives {:?}", m, k, (s.nstep, s.naccpt, s.nrejct), (base.nstep, base.naccpt, base.nrejct)));
+            }
+        }
+    }
+    None
+}
+
 fn main() {
     let which = std::env::args().nth(1).unwrap_or_default();
     let r = match which.as_str() {
@@ -647,6 +675,7 @@ fn main() {
         "default_mass" => default_mass(),
         "matrix_dense_model" => matrix_dense_model(),
         "lu_small" => lu_small(),
+        "duplication_invariance" => duplication_invariance(),
         "modified_solution_doubling" => modified_solution_doubling(),
         "event_function_scale" => event_function_scale(),
         "tiny_time_scale" => tiny_time_scale(),
